@@ -1421,7 +1421,7 @@ class SelectorWorld:
             if sc is not None and 0 <= a[k] < len(sc):
                 tie = abs(float(sc[a[k]]) - float(sc[b[k]])) <= tau
                 if fam in ("cur", "pcovcur") and not tie:
-                    tie = self._degenerate(t, p, fam, axis)
+                    tie = self._degenerate(t, p, fam, axis, Xp, yp)
             if tie:
                 self.count("diverged_at_tie")
                 return
@@ -1478,7 +1478,7 @@ class SelectorWorld:
             except Exception as e:  # noqa: BLE001
                 V("score_unreadable", f"{type(e).__name__}: {e}")
                 return
-            if self._degenerate(t, p, fam, axis):
+            if self._degenerate(t, p, fam, axis, Xp, yp):
                 self.count("degenerate_spectrum_skipped")
                 return
             atol = 1e-7 if not arp_fault else 1e-5
@@ -1505,7 +1505,7 @@ class SelectorWorld:
             scf = m.get("twin_final_scores", {}).get(k)
             tie = scf is not None and abs(float(scf[fin[k]]) - float(scf[b[k]])) <= tau
             if not tie and fam in ("cur", "pcovcur"):
-                tie = self._degenerate(t, p, fam, axis)
+                tie = self._degenerate(t, p, fam, axis, Xp, yp)
             if tie:
                 self.count("prefix_diverged_at_tie")
             else:
@@ -1529,16 +1529,26 @@ class SelectorWorld:
         except Exception:  # noqa: BLE001
             return True
 
-    def _degenerate(self, t, p, fam, axis):
-        """CUR-family scores are arbitrary when the k-th and (k+1)-th value coincide."""
+    def _degenerate(self, t, p, fam, axis, Xp=None, yp=None):
+        """CUR-family scores are arbitrary when the k-th and (k+1)-th value coincide.
+
+        The spectrum is that of the twin's working matrix.  A one-shot search
+        (recompute_every=0) never orthogonalises, so its working matrix IS the data: if the
+        twin keeps no working copy in that mode the data is used instead of giving up (an
+        exception below means 'not judged', and a library that merely stopped storing the
+        private copy must not switch the comparison off - seeded change C08_35)."""
         try:
             k = int(p.get("k", 1))
-            lim = 1e-3 if self._epsr(np.asarray(t.X_current_)) > 1.0 else 1e-6
-            Xc = np.asarray(t.X_current_, dtype=float)
+            Xc = getattr(t, "X_current_", None)
+            yc = getattr(t, "y_current_", None)
+            if Xc is None and Xp is not None and p.get("recompute_every", 1) == 0:
+                self.count("degenerate_guard_on_the_data_itself")
+                Xc, yc = Xp, yp
+            lim = 1e-3 if self._epsr(np.asarray(Xc)) > 1.0 else 1e-6
+            Xc = np.asarray(Xc, dtype=float)
             if fam == "cur":
                 gap, top = spectrum_gap(Xc, k, symmetric=False)
             else:
-                yc = getattr(t, "y_current_", None)
                 Y = np.asarray(yc, dtype=float).reshape(Xc.shape[0], -1)
                 mix = p.get("mixing", 0.5)
                 M = ref_pcovr_kernel(mix, Xc, Y) if axis == 0 else ref_pcovr_covariance(mix, Xc, Y)
